@@ -1,1 +1,235 @@
-//! Tap implementations: trace recorder, fault injector, gates (filled in by the I/O drivers).
+//! Tap implementations on top of the cfg(pearl_verif) hooks of pearl: trace recorder (H1 + H2
+//! events in one global order), fault injector and gates.
+
+use pearl::verif::{IoEvent, IoOp, Tap, Verdict};
+use serde_json::{json, Value};
+use std::path::Path;
+use std::sync::atomic::{AtomicBool, AtomicI64, AtomicU64, Ordering};
+use std::sync::{Arc, Mutex};
+
+/// (kind, id, location) of a storage file path: kind "blob" | "index" | "other",
+/// location "w" (work dir) | "c" (corrupted dir)
+pub fn classify(path: &Path) -> (String, i64, String) {
+    let name = path.file_name().map(|s| s.to_string_lossy().to_string()).unwrap_or_default();
+    let parts: Vec<&str> = name.split('.').collect();
+    let loc = if path.parent().and_then(|p| p.file_name()).map(|s| s == crate::drive::CORRUPTED_DIR).unwrap_or(false) { "c" } else { "w" };
+    if parts.len() == 3 {
+        if let Ok(id) = parts[1].parse::<i64>() {
+            let kind = match parts[2] {
+                "blob" => "blob",
+                "index" => "index",
+                _ => "other",
+            };
+            return (kind.to_string(), id, loc.to_string());
+        }
+    }
+    ("other".to_string(), -1, loc.to_string())
+}
+
+pub fn file_name_of(kind: &str, id: i64, loc: &str) -> String {
+    let k = match kind {
+        "blob" => "b",
+        "index" => "i",
+        _ => "o",
+    };
+    if loc == "c" { format!("{}{}c", k, id) } else { format!("{}{}", k, id) }
+}
+
+fn op_name(op: IoOp) -> &'static str {
+    match op {
+        IoOp::Create => "create",
+        IoOp::Open => "open",
+        IoOp::Reserve => "reserve",
+        IoOp::Write => "write",
+        IoOp::WriteDone => "write_done",
+        IoOp::WriteAt => "write_at",
+        IoOp::WriteAtDone => "write_at_done",
+        IoOp::SyncBegin => "sync_begin",
+        IoOp::Sync => "sync",
+        IoOp::SyncEnd => "sync_end",
+        IoOp::Truncate => "truncate",
+        IoOp::Rename => "rename",
+        IoOp::Remove => "remove",
+    }
+}
+
+/// What to do with the n-th operation of a kind on a file class.
+#[derive(Debug, Clone)]
+pub struct FaultPlan {
+    /// "create" | "open" | "write" | "write_at" | "sync" | "truncate" | "rename" | "remove"
+    pub op: String,
+    /// "blob" | "index" | "any"
+    pub kind: String,
+    /// 1-based occurrence to hit
+    pub nth: u64,
+    /// "eio" | "enospc" | "short"
+    pub how: String,
+    /// bytes written by a short write
+    pub short: u64,
+}
+
+/// Recorder + optional single fault.  All events (I/O, linearization points, driver events)
+/// go into one vector, ordered by the hook's global sequence number.
+pub struct Recorder {
+    events: Mutex<Vec<(u64, Value)>>,
+    pub enabled: AtomicBool,
+    pub capture_payload: AtomicBool,
+    fault: Mutex<Option<FaultPlan>>,
+    fault_count: AtomicU64,
+    pub fault_hits: AtomicI64,
+    /// sequence number of the injected fault (0 = none yet)
+    pub fault_seq: AtomicU64,
+}
+
+impl Recorder {
+    pub fn new() -> Arc<Self> {
+        Arc::new(Self {
+            events: Mutex::new(Vec::new()),
+            enabled: AtomicBool::new(true),
+            capture_payload: AtomicBool::new(false),
+            fault: Mutex::new(None),
+            fault_count: AtomicU64::new(0),
+            fault_hits: AtomicI64::new(0),
+            fault_seq: AtomicU64::new(0),
+        })
+    }
+
+    pub fn install(self: &Arc<Self>) {
+        pearl::verif::set_tap(Some(self.clone() as Arc<dyn Tap>));
+    }
+
+    pub fn uninstall() {
+        pearl::verif::set_tap(None);
+    }
+
+    pub fn set_fault(&self, plan: Option<FaultPlan>) {
+        *self.fault.lock().unwrap() = plan;
+        self.fault_count.store(0, Ordering::SeqCst);
+        self.fault_seq.store(0, Ordering::SeqCst);
+    }
+
+    fn push(&self, seq: u64, v: Value) {
+        if self.enabled.load(Ordering::SeqCst) {
+            self.events.lock().unwrap().push((seq, v));
+        }
+    }
+
+    /// driver-side event (API call / return, quiescence marker, reset ...)
+    pub fn driver_event(&self, ev: &str, op: &str, id: i64, ok: bool, a: i64) {
+        let seq = pearl::verif::next_seq();
+        self.push(seq, base_event(seq, ev, "", "", id, "", 0, 0, a, op, ok));
+    }
+
+    /// take all events recorded so far, in sequence order
+    pub fn drain(&self) -> Vec<Value> {
+        let mut v = std::mem::take(&mut *self.events.lock().unwrap());
+        v.sort_by_key(|x| x.0);
+        v.into_iter().map(|x| x.1).collect()
+    }
+}
+
+#[allow(clippy::too_many_arguments)]
+pub fn base_event(seq: u64, ev: &str, f: &str, k: &str, id: i64, loc: &str, off: u64, len: u64, a: i64, op: &str, ok: bool) -> Value {
+    json!({"seq": seq, "ev": ev, "f": f, "k": k, "id": id, "loc": loc, "off": off, "len": len,
+           "a": a, "op": op, "ok": if ok { 1 } else { 0 }, "f2": ""})
+}
+
+impl Tap for Recorder {
+    fn io(&self, ev: &IoEvent<'_>) -> Verdict {
+        let (kind, id, loc) = classify(ev.path);
+        let name = file_name_of(&kind, id, &loc);
+        let opn = op_name(ev.op);
+        // fault decision first (so that the recorded event carries the outcome)
+        let mut verdict = Verdict::Proceed;
+        {
+            let plan = self.fault.lock().unwrap().clone();
+            if let Some(p) = plan {
+                let op_match = p.op == opn;
+                let kind_match = p.kind == "any" || p.kind == kind;
+                if op_match && kind_match {
+                    let n = self.fault_count.fetch_add(1, Ordering::SeqCst) + 1;
+                    if n == p.nth {
+                        verdict = match p.how.as_str() {
+                            "short" => Verdict::Short(p.short),
+                            "enospc" => Verdict::Fail(28),
+                            _ => Verdict::Fail(5),
+                        };
+                        self.fault_hits.fetch_add(1, Ordering::SeqCst);
+                        self.fault_seq.store(ev.seq, Ordering::SeqCst);
+                    }
+                }
+            }
+        }
+        let mut a: i64 = match ev.op {
+            IoOp::SyncBegin | IoOp::Sync | IoOp::SyncEnd => ev.off as i64,
+            _ => 0,
+        };
+        let mut extra: Option<(u64, u64)> = None;
+        if ev.op == IoOp::WriteAt && kind == "index" && ev.off == 0 {
+            // index header rewrite: expose the written bit and the described blob size
+            let mut buf = Vec::new();
+            for b in ev.bufs {
+                buf.extend_from_slice(b);
+            }
+            if let Some((bs, written)) = crate::drive::index_header_info(&buf) {
+                extra = Some((bs, written as u64));
+                a = bs as i64;
+            }
+        }
+        let mut v = base_event(ev.seq, opn, &name, &kind, id, &loc, ev.off, ev.len, a, "", verdict == Verdict::Proceed);
+        if let Some((_, w)) = extra {
+            v["w"] = json!(w);
+        }
+        if let Some(p2) = ev.path2 {
+            let (k2, id2, loc2) = classify(p2);
+            v["f2"] = json!(file_name_of(&k2, id2, &loc2));
+        }
+        match verdict {
+            Verdict::Short(n) => {
+                v["short"] = json!(n);
+            }
+            _ => {}
+        }
+        if self.capture_payload.load(Ordering::SeqCst) && !ev.bufs.is_empty() {
+            let mut buf = Vec::new();
+            for b in ev.bufs {
+                buf.extend_from_slice(b);
+            }
+            v["data"] = json!(hex(&buf));
+        }
+        self.push(ev.seq, v);
+        verdict
+    }
+
+    fn event(&self, seq: u64, name: &'static str, fields: &[(&'static str, u64)], key: Option<&[u8]>) {
+        let get = |n: &str| fields.iter().find(|f| f.0 == n).map(|f| f.1);
+        let id = get("blob").map(|x| x as i64).unwrap_or(-1);
+        let mut v = base_event(seq, name, &file_name_of("blob", id, "w"), "blob", id, "w", get("off").unwrap_or(0), get("len").unwrap_or(0),
+            get("blob_size").or(get("optype")).or(get("panic")).unwrap_or(0) as i64, "", get("ok").unwrap_or(1) == 1);
+        for (n, x) in fields {
+            if !matches!(*n, "blob" | "off" | "len" | "ok") {
+                v[*n] = json!(x);
+            }
+        }
+        if let Some(k) = key {
+            // model keys are small numbers in the last 8 bytes
+            let n = k.len().min(8);
+            let mut b = [0u8; 8];
+            b[8 - n..].copy_from_slice(&k[k.len() - n..]);
+            v["key"] = json!(u64::from_be_bytes(b));
+        }
+        self.push(seq, v);
+    }
+}
+
+pub fn hex(b: &[u8]) -> String {
+    let mut s = String::with_capacity(b.len() * 2);
+    for x in b {
+        s.push_str(&format!("{:02x}", x));
+    }
+    s
+}
+
+pub fn unhex(s: &str) -> Vec<u8> {
+    (0..s.len() / 2).map(|i| u8::from_str_radix(&s[2 * i..2 * i + 2], 16).unwrap_or(0)).collect()
+}
